@@ -23,7 +23,7 @@ def run(cmd, **kw):
 
 def collect():
     os.makedirs(BENIGN, exist_ok=True)
-    for d in sorted(glob.glob("/tmp/wtb-*/benign/*")):
+    for d in sorted(glob.glob("/tmp/wtb*-*/benign/*")):
         if not os.path.exists(os.path.join(d, "patch.diff")):
             continue
         dst = os.path.join(BENIGN, os.path.basename(d))
